@@ -5,7 +5,7 @@ The C driver (`/verif/harness/cdrv.c`) implements the same protocol on the real 
 the correspondence check diffs the two output streams.
 -/
 import Std.Data.HashMap
-import SkinnyVerif.Api.World
+import SkinnyVerif.Api.FactsBuild
 import SkinnyVerif.Spec.Skinny
 
 namespace SkinnyVerif.Driver
@@ -26,7 +26,7 @@ structure St where
   -- spec-mode shadow state: what the specification needs to know about each key object
   specKey : Std.HashMap String (Bytes × Bytes × Nat × Int) := {}   -- key, tweak, rounds/flag, mode
 
-def defaultSizes : Sizes := { ctr := fun _ _ => 0, par := fun _ => 0 }
+def defaultSizes : Sizes := factsSizes
 
 def mkBuild (tag : Tag) : Build :=
   { cfg := {}, tag := tag, sizes := defaultSizes, setTweakNullOk := false, parInitNullCheck := false,
@@ -67,14 +67,10 @@ def step (st : St) (line : String) : St × String :=
     | some t => ({ st with bd := { bd with tag := t, setTweakNullOk := b2n a, parInitNullCheck := b2n b, initClearsOnFail := b2n c, initStaggers := b2n d } }, "ok")
     | none => (st, "bad-op")
   | ["sizes", a, b, c, d, e, f, g, h, i, j] =>
-    let n := fun (s : String) => s.toNat!
-    let ctr : Family → Backend → Nat := fun fam be =>
-      match fam, be with
-      | .s128, .generic => n a | .s128, .vec128 => n b | .s128, .vec256 => n c
-      | .s64, .generic => n d | .s64, _ => n e
-      | .mantis, .generic => n f | .mantis, _ => n g
-    let par : Family → Nat := fun fam => match fam with | .s128 => n h | .s64 => n i | .mantis => n j
-    ({ st with bd := { bd with sizes := { ctr := ctr, par := par } } }, "ok")
+    -- the sizes the harness read off the source must be the ones the model was generated with
+    let want := [a, b, c, d, e, f, g, h, i, j].map String.toNat!
+    let have_ := (List.range 10).map factAlloc
+    (st, if want = have_ then "ok" else "sizes-mismatch")
   | ["probes", a, b] => ({ st with probes := ⟨b2n a, b2n b⟩ }, "ok")
   | ["align", _] | ["guard", _] | ["overlap", _] => (st, "ok")
   | ["junk", x] => ({ st with junk := UInt8.ofNat x.toNat! }, "ok")
